@@ -30,11 +30,13 @@ def load_properties():
                 PROPS[p["id"]] = p
 
 
-def run_worker(module, tier, o, modes, hard_timeout):
+def run_worker(module, tier, o, modes, hard_timeout, extra_env=None):
     cmd = [PY, "-m", "engine.worker", module, tier, o.name, ",".join(modes)]
     t0 = time.time()
+    env = dict(os.environ)
+    env.update(extra_env or {})
     try:
-        p = subprocess.run(cmd, cwd=ROOT, capture_output=True, text=True, timeout=hard_timeout)
+        p = subprocess.run(cmd, cwd=ROOT, capture_output=True, text=True, timeout=hard_timeout, env=env)
     except subprocess.TimeoutExpired:
         return {"obligation": o.name, "results": {m: {"status": "UNKNOWN", "note": "hard wall-clock timeout %ds" % hard_timeout,
                                                      "paths": 0, "solver_checks": 0, "solver_secs": 0.0, "wall_s": hard_timeout}
@@ -109,6 +111,27 @@ def process(pid, module, tier, o, findings_db):
                 events.append(("HARNESS-ERROR", o.name, "SMT counterexample does not reproduce on the real function"))
         return rec, events
     # ---- Engine A
+    if main.get("status") == "REFUTED" and main.get("hang_candidate"):
+        # a path was ended by the per-path CPU budget: only a concrete replay that does not return either is a violation
+        path, outcome, observed = do_replay(pid, module, tier, o, None, main["args"])
+        rec["replays"] += 1
+        if outcome == "fails":
+            rec["counterexample"] = main["args"]
+            rec["cex_message"] = "path ended by the per-path CPU budget"
+            rec["replay"] = {"path": path, "outcome": outcome, "observed": observed[:1500]}
+            events.append(("VIOLATION", o.name, path))
+            main = dict(main, status="REFUTED-HANG")
+        else:
+            # merely slow under the engine: analyse again without the guard (other paths may still hold a counterexample)
+            w = run_worker(module, tier, o, ["main", "twin"] if o.twin else ["main"], hard, {"VERIF_NO_HANG_GUARD": "1"})
+            if "error" in w:
+                rec["status"] = "ERROR"
+                rec["error"] = w["error"]
+                return rec, [("HARNESS-ERROR", o.name, w["error"])]
+            main = w["results"].get("main", {})
+            rec.update({k: main.get(k) for k in ("status", "paths", "confirmed_paths", "solver_checks", "solver_secs",
+                                                 "solver_unknown", "wall_s", "functions", "note") if k in main})
+            rec["note"] = ((rec.get("note") or "") + " a path exceeded the per-path CPU budget; its concrete inputs return normally on the real code").strip()
     if main.get("status") == "REFUTED":
         path, outcome, observed = do_replay(pid, module, tier, o, None, main["args"])
         rec["replays"] += 1
@@ -123,6 +146,32 @@ def process(pid, module, tier, o, findings_db):
             return rec, events
         if outcome == "fails":
             events.append(("VIOLATION", o.name, path))
+        elif "crc" in o.contracts:
+            # abstraction refinement: under the uninterpreted CRC the solver may pick checksum bytes no real frame has;
+            # analyse again with the exact bit-vector CRC (sound either way: the uninterpreted function over-approximates)
+            w2 = run_worker(module, tier, o, ["main"], hard, {"VERIF_CRC_EXACT": "1"})
+            m2 = w2.get("results", {}).get("main", {})
+            rec["refinement"] = {"reason": "counterexample under the uninterpreted CRC did not reproduce", "status": m2.get("status"),
+                                 "paths": m2.get("paths"), "solver_checks": m2.get("solver_checks"), "wall_s": m2.get("wall_s")}
+            rec.pop("counterexample", None)
+            rec.pop("replay", None)
+            if m2.get("status") == "REFUTED" and m2.get("args"):
+                path, outcome, observed = do_replay(pid, module, tier, o, None, m2["args"])
+                rec["replays"] += 1
+                rec["counterexample"] = m2["args"]
+                rec["replay"] = {"path": path, "outcome": outcome, "observed": observed[:1500]}
+                if outcome == "fails":
+                    rec["status"] = "REFUTED"
+                    events.append(("VIOLATION", o.name, path))
+                else:
+                    rec["status"] = "MODEL-MISMATCH"
+                    events.append(("HARNESS-ERROR", o.name, "counterexample %s (exact CRC) does not reproduce on the real code (%s)" % (str(m2["args"])[:300], outcome)))
+            elif m2.get("status") == "CONFIRMED":
+                rec["status"] = "CONFIRMED"
+                rec["note"] = "confirmed with the exact bit-vector CRC after the uninterpreted-CRC abstraction gave a spurious counterexample"
+            else:
+                rec["status"] = "UNKNOWN"
+                rec["note"] = "spurious counterexample under the uninterpreted CRC; the exact-CRC run was inconclusive"
         else:
             rec["status"] = "MODEL-MISMATCH"
             events.append(("HARNESS-ERROR", o.name, "counterexample %s does not reproduce on the real code (%s)" % (str(main["args"])[:300], outcome)))
